@@ -7,6 +7,7 @@
   request (and by the harness oracle against an independent prefix sum).
 -/
 import TuModel.Model.Windows
+import TuModel.Lemmas.WindowsUL
 namespace Tu.C16
 open Tu
 
@@ -400,5 +401,171 @@ example : windowsAccept 1 [1, 2, 1, 1] 4 1 none = false := by decide
 example : windowsAccept 1 [1, 2, 1, 1] 2 1 none = true := by decide
 example : windowsAccept 1 [1, 2, 1, 1] 2 1 (some exShort) = false := by decide
 end Examples
+
+/-! ### no `usize` operation of `char` / `byte` overflows: the checked-arithmetic mirror refines the `Nat` model
+
+`Model/WindowsU.lean` re-writes the configuration check, `char`, `count_until` and `byte` with checked `usize`
+operations (`none` = the operation panics in a debug build).  "An impossible configuration or a character that
+cannot fit yields an error, never a panic" includes that no arithmetic operation panics; the theorems below prove
+it for every input that can exist: `max`, `ctx` are `usize` values, a text has at most `isize::MAX = 2^63 - 1`
+bytes, hence also at most that many characters. -/
+
+/-- the REPAIRED configuration check `max / 2 < ctx || max <= 2 * ctx` never overflows and decides exactly the
+model's predicate; `ctx` may be anything (the short-circuit protects the product) -/
+theorem cfgInvalidU_eq' (max ctx : Nat) (hm : max < 2 ^ 64) :
+    cfgInvalidU max ctx = some (decide (max ≤ 2 * ctx)) :=
+  cfgInvalidU_val max ctx hm
+
+theorem cfgInvalidU_eq (max ctx : Nat) (hm : max < 2 ^ 64) (_hc : ctx < 2 ^ 64) :
+    cfgInvalidU max ctx = some (decide (max ≤ 2 * ctx)) :=
+  cfgInvalidU_val max ctx hm
+
+/-- the check BEFORE the repair (`max <= 2 * ctx`) panics for every context length from `2^63` on: the repaired
+defect -/
+theorem cfgInvalidOldU_overflows : ∀ max ctx : Nat, 2 ^ 63 ≤ ctx → cfgInvalidOldU max ctx = none :=
+  cfgInvalidOldU_none
+
+/-- below `2^63` the old check was fine, so `2^63 ≤ ctx` characterises the defect exactly -/
+theorem cfgInvalidOldU_ok (max ctx : Nat) (h : ctx < 2 ^ 63) :
+    cfgInvalidOldU max ctx = some (decide (max ≤ 2 * ctx)) :=
+  cfgInvalidOldU_val max ctx h
+
+example : cfgInvalidOldU 5 (2 ^ 63) = none := by decide
+example : cfgInvalidOldU (2 ^ 64 - 1) (2 ^ 64 - 1) = none := by decide
+example : cfgInvalidU 5 (2 ^ 63) = some true := by decide
+example : cfgInvalidU (2 ^ 64 - 1) (2 ^ 64 - 1) = some true := by decide
+example : cfgInvalidU (2 ^ 64 - 1) (2 ^ 63 - 1) = some false := by decide
+example : cfgInvalidU (2 ^ 64 - 1) 0 = some false := by decide
+
+/-- `char`: for a text of at most `2^63` characters no operation overflows and the result is the model's.
+(`ctx` needs no bound of its own: an accepted configuration has `2·ctx < max`.) -/
+theorem charWindowsU_eq' (lens : List Nat) (max ctx : Nat) (hm : max < 2 ^ 64) (hn : lens.length ≤ 2 ^ 63) :
+    charWindowsU lens max ctx = some (charWindows lens max ctx) := by
+  unfold charWindowsU charWindows
+  cases lens.isEmpty
+  · simp only [Bool.false_eq_true, if_false]
+    rw [cfgInvalidU_val max ctx hm]
+    by_cases h : max ≤ 2 * ctx
+    · simp [h]
+    · simp only [h, decide_false, if_false]
+      exact charLoopU_eq lens max ctx (by omega) hm (by unfold U64; omega) _ 0 rfl (fun _ => Or.inl rfl)
+  · simp
+
+/-- **`char` never panics on arithmetic**: for every text that can exist (fewer than `2^63` characters) and all
+`usize` parameters the checked mirror yields a value, the `Nat` model's -/
+theorem charWindowsU_eq (lens : List Nat) (max ctx : Nat) (hm : max < 2 ^ 64) (_hc : ctx < 2 ^ 64)
+    (hn : lens.length < 2 ^ 63) : charWindowsU lens max ctx = some (charWindows lens max ctx) :=
+  charWindowsU_eq' lens max ctx hm (by omega)
+
+/-- `count_until`: the accumulating fold of the code equals the budget-subtracting `countUntil` of the model when
+the bytes and the number of the characters it iterates over fit into `usize` -/
+theorem countUntilU_eq_model (ls : List Nat) (m : Nat) (hs : ls.sum < 2 ^ 64) (hc : ls.length < 2 ^ 64) :
+    countUntilU ls m = some (countUntil ls m) :=
+  countUntilU_eq ls m hs hc
+
+/-- `byte`: if the byte length and the number of characters of the text fit into `usize`, no operation
+overflows and the result is the model's (characters of zero bytes allowed, `ctx` unconstrained) -/
+theorem byteWindowsU_eq' (lens : List Nat) (max ctx : Nat) (hm : max < 2 ^ 64) (hs : lens.sum < 2 ^ 64)
+    (hn : lens.length < 2 ^ 64) : byteWindowsU lens max ctx = some (byteWindows lens max ctx) := by
+  unfold byteWindowsU byteWindows
+  cases lens.isEmpty
+  · simp only [Bool.false_eq_true, if_false]
+    rw [cfgInvalidU_val max ctx hm]
+    by_cases h : max ≤ 2 * ctx
+    · simp [h]
+    · simp only [h, decide_false, if_false]
+      exact byteLoopU_eq lens max ctx (by omega) hm hs hn _ 0 rfl
+  · simp
+
+/-- **`byte` never panics on arithmetic**: for every text that can exist (fewer than `2^63` bytes, every character
+at least one byte) and all `usize` parameters the checked mirror yields a value, the `Nat` model's -/
+theorem byteWindowsU_eq (lens : List Nat) (max ctx : Nat) (hm : max < 2 ^ 64) (_hc : ctx < 2 ^ 64)
+    (hb : lens.sum < 2 ^ 63) (hl : ∀ l ∈ lens, 1 ≤ l) :
+    byteWindowsU lens max ctx = some (byteWindows lens max ctx) := by
+  have := length_le_sum lens hl
+  exact byteWindowsU_eq' lens max ctx hm (by omega) (by omega)
+
+/-- consequently: an impossible configuration is the error VALUE for all `usize` parameters, in both functions -/
+theorem invalid_cfg_errU (lens : List Nat) (max ctx : Nat) (hne : lens ≠ []) (hm : max < 2 ^ 64)
+    (hcfg : max ≤ 2 * ctx) :
+    charWindowsU lens max ctx = some (.error .badConfig) ∧ byteWindowsU lens max ctx = some (.error .badConfig) := by
+  have h1 : lens.isEmpty = false := by cases lens <;> simp_all
+  simp [charWindowsU, byteWindowsU, h1, cfgInvalidU_val max ctx hm, hcfg]
+
+/-- the bound on the number of characters is sharp for `char`: with `2^63 + 1` characters (a text that cannot
+exist), `max = 2^63`, `ctx = 0` the second window computes `window_start + window_length = 2^63 + 2^63` -/
+theorem charWindowsU_length_sharp (lens : List Nat) (h : lens.length = 2 ^ 63 + 1) :
+    charWindowsU lens (2 ^ 63) 0 = none := by
+  have h1 : lens.isEmpty = false := by cases lens <;> simp_all
+  have c : cfgInvalidU (2 ^ 63) 0 = some false := by decide
+  have w0 : winLenU (2 ^ 63) 0 0 = some (2 ^ 63) := by decide
+  have w1 : winLenU (2 ^ 63) 0 (2 ^ 63) = some (2 ^ 63) := by decide
+  have a0 : addU 0 (2 ^ 63) = some (2 ^ 63) := by decide
+  have a1 : addU (2 ^ 63) 0 = some (2 ^ 63) := by decide
+  have a2 : addU (2 ^ 63) (2 ^ 63) = none := by decide
+  have m : min lens.length (2 ^ 63) = 2 ^ 63 := by omega
+  unfold charWindowsU
+  rw [h1]; simp only [Bool.false_eq_true, if_false, c]
+  rw [charLoopU, dif_pos (by omega)]
+  simp only [w0, a0, a1, m]
+  rw [dif_neg (by omega)]
+  rw [charLoopU, dif_pos (by omega)]
+  simp only [w1, a2]
+
+example : ∃ lens : List Nat, lens.length = 2 ^ 63 + 1 := ⟨List.replicate (2 ^ 63 + 1) 1, List.length_replicate⟩
+
+/-! non-vacuity and boundary values.  (`charLoopU` / `byteLoopU` are defined by well-founded recursion, which
+`decide` does not unfold: the concrete values are computed by rewriting with the defining equations.) -/
+section ExamplesU
+
+/-- `max = usize::MAX`, no context: one window, no overflow -/
+example : charWindowsU [1, 2, 3, 4, 1] (2 ^ 64 - 1) 0 = some (.ok [mkWin [1, 2, 3, 4, 1] 0 0 5 5]) := by
+  simp [charWindowsU, cfgInvalidU, mulU, U64]
+  rw [charLoopU]; simp [winLenU, addU, mulU, subU, U64]
+  rw [charLoopU]; simp
+/-- the same as an instance of the general theorem -/
+example : charWindowsU [1, 2, 3, 4, 1] (2 ^ 64 - 1) 0 = some (charWindows [1, 2, 3, 4, 1] (2 ^ 64 - 1) 0) :=
+  charWindowsU_eq _ _ _ (by decide) (by decide) (by decide)
+/-- two windows: `[0,2)` with context `[0,3)`, then `[2,3)` with context `[1,3)` -/
+example : charWindowsU [1, 2, 3] 3 1 = some (.ok [mkWin [1, 2, 3] 0 0 2 3, mkWin [1, 2, 3] 1 2 3 3]) := by
+  simp [charWindowsU, cfgInvalidU, mulU, U64]
+  rw [charLoopU]; simp [winLenU, addU, mulU, subU, U64]
+  rw [charLoopU]; simp [winLenU, addU, mulU, subU, U64]
+  rw [charLoopU]; simp
+example : byteWindowsU [2] 7 2 = some (.ok [mkWin [2] 0 0 1 1]) := by
+  simp [byteWindowsU, cfgInvalidU, mulU, U64]
+  rw [byteLoopU]; simp [winLenU, addU, mulU, subU, U64, countUntilU, countUntilGo]
+  rw [byteLoopU]; simp
+example : byteWindowsU [2] 7 2 = some (byteWindows [2] 7 2) :=
+  byteWindowsU_eq _ _ _ (by decide) (by decide) (by decide) (by decide)
+/-- `max = usize::MAX`, the largest context that is still valid -/
+example : byteWindowsU [1, 2, 3, 4, 1] (2 ^ 64 - 1) (2 ^ 63 - 1) =
+    some (byteWindows [1, 2, 3, 4, 1] (2 ^ 64 - 1) (2 ^ 63 - 1)) :=
+  byteWindowsU_eq _ _ _ (by decide) (by decide) (by decide) (by decide)
+/-- an invalid configuration is an error value, also where the old check overflowed -/
+example : charWindowsU [1, 1] 4 2 = some (.error .badConfig) := by
+  simp [charWindowsU, cfgInvalidU, mulU, U64]
+example : byteWindowsU [1, 1] (2 ^ 64 - 1) (2 ^ 63) = some (.error .badConfig) := by
+  simp [byteWindowsU, cfgInvalidU]
+/-- a character too wide for the window is an error value -/
+example : byteWindowsU [1, 5, 1] 6 1 = some (.error .tooWide) := by
+  simp [byteWindowsU, cfgInvalidU, mulU, U64]
+  rw [byteLoopU]; simp [winLenU, addU, mulU, subU, U64, countUntilU, countUntilGo]
+  rw [byteLoopU]; simp [winLenU, addU, mulU, subU, U64, countUntilU, countUntilGo]
+/-- the empty text: the single empty window, whatever the configuration (as in `windows::windows`) -/
+example : charWindowsU [] 0 (2 ^ 64 - 1) = some (.ok [emptyWin]) := rfl
+/-- `count_until` on a concrete list -/
+example : countUntilU [1, 2, 3] 4 = some 2 := by decide
+
+/-- the bound on the byte length is needed, and `2^64` is sharp for `byte`: a (non-existent) text of `2^64` bytes
+makes `acc + char_byte_len(idx)` in `count_until` overflow, where the `Nat` model has an answer.  No text of
+that size can exist (allocations are limited to `isize::MAX` bytes), so this is not a defect of the code. -/
+example : byteWindowsU [2 ^ 64 - 1, 1] (2 ^ 64 - 1) 0 = none := by
+  simp [byteWindowsU, cfgInvalidU, mulU, U64]
+  rw [byteLoopU]; simp [winLenU, addU, mulU, subU, U64, countUntilU, countUntilGo]
+example : ∃ l, byteWindows [2 ^ 64 - 1, 1] (2 ^ 64 - 1) 0 = .ok l :=
+  byte_windows_fit _ _ _ (by decide) (by decide) (by decide)
+
+end ExamplesU
 
 end Tu.C16
